@@ -16,9 +16,9 @@ echo "-- suite with change:"; cargo test --offline 2>&1 | grep -E "^test result|
 # add the demo
 jsdemo=$(ls $src/demo.js 2>/dev/null)
 if [ -n "$jsdemo" ]; then
-  echo "-- js demo with change:"; (cd $src && REWRITER_ROOT=$wt VERIF_WT=$wt node demo.js $wt 2>&1 | tail -3)
+  echo "-- js demo with change:"; (cd $src && PKG_ROOT=$wt REWRITER_ROOT=$wt VERIF_WT=$wt node demo.js $wt 2>&1 | tail -3)
   git checkout -- . 
-  echo "-- js demo without change:"; (cd $src && REWRITER_ROOT=$wt VERIF_WT=$wt node demo.js $wt 2>&1 | tail -3)
+  echo "-- js demo without change:"; (cd $src && PKG_ROOT=$wt REWRITER_ROOT=$wt VERIF_WT=$wt node demo.js $wt 2>&1 | tail -3)
 else
   if [ -f $src/demo.diff ]; then git apply $src/demo.diff 2>/dev/null || patch -p1 -F3 -s --no-backup-if-mismatch < $src/demo.diff
   else
